@@ -197,6 +197,18 @@ var targets = []target{
 		Externs: map[string]extern{
 			"w.Close": {Lean: "W_CloseErr", Type: "Kit.GoSem.Err", Effects: []string{"wCloses := wCloses + 1"}},
 		}},
+	{Group: "C16", Dir: "streams", Func: "MultiReaderCloser.writeToWithBuffer", Abstract: []string{"w", "buf"},
+		Types:  map[string]string{"[]io.Reader": "List Nat", "io.Reader": "Nat", "io.Closer": "Nat"},
+		Ghosts: []string{"(closeLog : List Nat)", "(copyLog : List Nat)"},
+		// io.CopyBuffer(w, r, buf) of source r: (bytes copied, error) — a parameter; each call is logged
+		ExtraParams: []string{"(R_IsCloser : Nat → Bool)", "(R_Copy : Nat → Int × Kit.GoSem.Err)"},
+		Rewrites:    map[string][2]string{"r.(io.Closer)": {"(r, R_IsCloser r)", "Nat × Bool"}},
+		Ignore:      []string{"mr.readers[i] = nil"},
+		StmtEffects: map[string][]string{"mr.readers = nil": {"mr_readers := ([] : List Nat)"}},
+		Externs: map[string]extern{
+			"io.CopyBuffer": {Lean: "(R_Copy %2)", Type: "Int × Kit.GoSem.Err", Effects: []string{"copyLog := copyLog ++ [%2]"}},
+			"rc.Close":      {Lean: "(none : Kit.GoSem.Err)", Type: "Kit.GoSem.Err", Effects: []string{"closeLog := closeLog ++ [%r]"}},
+		}},
 	{Group: "C03", Dir: "crypto/padding", Func: "UnpadPKCS7"},
 	{Group: "C03", Dir: "crypto/padding", Func: "PadPKCS7", Externs: map[string]extern{
 		"bytes.Repeat": {Lean: "(List.flatten (List.replicate (%2).toNat %1))", Type: "List UInt8"},
